@@ -520,14 +520,15 @@ Lemma validate_borrow_ok e s u c x : validate_borrow e s u c = Ok x tt ->
   exists dp, dep s u = Some dp /\
     all_priced e s c = true /\ all_priced e s (amt dp) = true /\ all_priced e s (amt_of (bor s u)) = true /\
     value_of e s c + value_of e s (amt_of (bor s u)) <= borrowable_of e s (amt dp) /\
-    min_borrow e <= value_of e s c + value_of e s (amt_of (bor s u)).
+    min_borrow e <= value_of e s c + value_of e s (amt_of (bor s u)) /\
+    within_ltv e s (amt dp) (cadd (amt_of (bor s u)) c) = Some true.
 Proof.
   unfold validate_borrow. intros H.
   inv_bind H as u1 G1. inv_bind H as u2 G2. inv_bind H as u3 G3. inv_bind H as u4 G4.
   destruct (dep s u) as [dp|]; [|discriminate].
-  inv_bind H as u5 G5. inv_bind H as u6 G6. inv_bind H as u7 G7.
-  apply err_unless_ok in H, G3, G5, G6, G7. apply negb_true_iff in H, G7.
-  apply Z.ltb_ge in H, G7.
+  inv_bind H as u5 G5. inv_bind H as u6 G6. inv_bind H as u7 G7. inv_bind H as u8 G8. inv_bind H as w G9.
+  apply err_unless_ok in H, G3, G5, G6, G7, G8. apply negb_true_iff in G8, G7.
+  apply Z.ltb_ge in G8, G7. apply opt_err_ok in G9. subst w.
   exists dp. repeat split; try assumption; lia.
 Qed.
 
@@ -536,6 +537,7 @@ Lemma borrow_spec e s u c s' : borrow e s u c = Ok s' tt ->
     dep s2 u = Some dp /\
     all_priced e s2 c = true /\ all_priced e s2 (amt dp) = true /\ all_priced e s2 (amt_of (bor s2 u)) = true /\
     value_of e s2 c + value_of e s2 (amt_of (bor s2 u)) <= borrowable_of e s2 (amt dp) /\
+    within_ltv e s2 (amt dp) (cadd (amt_of (bor s2 u)) c) = Some true /\
     price s' = price s2 /\ dep s' = dep s2 /\
     ceq (nd e) (amt_of (bor s' u)) (cadd (amt_of (bor s2 u)) c) /\
     (forall v, v <> u -> dep s' v = dep s v /\ bor s' v = bor s v) /\
@@ -544,7 +546,7 @@ Proof.
   unfold borrow. intros H.
   inv_bind H as u1 G1. inv_bind H as u2 G2. inv_bind H as s1 E1. inv_bind H as s2 E2.
   inv_bind H as u3 G3. inv_bind H as s3 E3. apply ret_ok in H.
-  apply validate_borrow_ok in G3. destruct G3 as (dp & Hd & P1 & P2 & P3 & V & _).
+  apply validate_borrow_ok in G3. destruct G3 as (dp & Hd & P1 & P2 & P3 & V & _ & W).
   apply bsend_ok in E3. destruct E3 as [_ ->].
   destruct (sync_supply_frame _ _ _ _ E1) as (S1 & S2 & S3 & _ & _ & _ & _ & _ & _ & S10 & _).
   destruct (sync_borrow_frame _ _ _ _ E2) as (B1 & B2 & B3 & _ & _ & _ & _ & _ & _ & B10 & _).
@@ -563,13 +565,22 @@ Lemma borrow_gate_partial e s u c s' : borrow e s u c = Ok s' tt ->
     value_of e s' old + value_of e s' c <= borrowable_of e s' (amt_of (dep s' u)).
 Proof.
   intros H. apply borrow_spec in H.
-  destruct H as (s2 & dp & Hd & P1 & P2 & P3 & V & Hp & Hdep & Hb & _).
+  destruct H as (s2 & dp & Hd & P1 & P2 & P3 & V & _ & Hp & Hdep & Hb & _).
   exists (amt_of (bor s2 u)). rewrite Hdep, Hd. cbn [amt_of].
   assert (R : ceq (nd e) (amt dp) (amt dp)) by (intros d _; reflexivity).
   assert (R2 : forall c0 : coins, ceq (nd e) c0 c0) by (intros c0 d _; reflexivity).
   rewrite (all_priced_ext _ _ _ _ _ Hp R), !(all_priced_ext _ _ _ _ _ Hp (R2 _)),
           !(value_of_ext _ _ _ _ _ Hp (R2 _)), (borrowable_of_ext _ _ _ _ _ Hp R).
   repeat split; try assumption. lia.
+Qed.
+
+Lemma borrow_gate e s u c s' : borrow e s u c = Ok s' tt ->
+  within_ltv e s' (amt_of (dep s' u)) (amt_of (bor s' u)) = Some true.
+Proof.
+  intros H. apply borrow_spec in H.
+  destruct H as (s2 & dp & Hd & _ & _ & _ & _ & W & Hp & Hdep & Hb & _).
+  rewrite <- W, Hdep, Hd. cbn [amt_of]. apply within_ltv_ext; [assumption|intros d _; reflexivity|].
+  intros d Hd'. symmetry. apply Hb, Hd'.
 Qed.
 
 (** ** repay: the payment is capped by the synced debt *)
@@ -735,38 +746,22 @@ Proof.
   exists c'. rewrite E. split; [reflexivity|assumption].
 Qed.
 
-(** ** supply side, under the guard "reserves <= cash + borrows" *)
-Definition env_wf (e : env) : Prop :=
-  forall d m, mm e d = Some m -> 0 <= m_reserve m <= PREC.
-Definition reserves_covered (e : env) (s : state) : Prop :=
-  forall d, tres s d <= bal s (hacc e) d + tbor s d.
-
-Lemma supply_factor_ge_one sint cash b r : 0 <= sint -> r <= cash + b ->
+(** ** supply side: CalculateSupplyInterestFactor never returns less than one *)
+Lemma supply_factor_ge_one sint cash b r : 0 <= sint ->
   PREC <= supply_factor (dec_of_int sint) (dec_of_int cash) (dec_of_int b) (dec_of_int r).
 Proof.
-  intros Hs Hg. unfold supply_factor, dec_of_int.
-  destruct (Z.eqb_spec (cash * PREC + b * PREC - r * PREC) 0); [lia|].
+  intros Hs. unfold supply_factor, dec_of_int.
+  destruct (Z.leb_spec (cash * PREC + b * PREC - r * PREC) 0); [lia|].
   assert (0 <= dec_quo (sint * PREC) (cash * PREC + b * PREC - r * PREC)).
   { apply dec_quo_nonneg; unfold PREC in *; nia. }
   lia.
 Qed.
 
-Lemma reserve_share_le i rf : 0 <= i -> 0 <= rf <= PREC ->
-  dec_trunc_int (dec_mul (dec_of_int i) rf) <= i.
+Lemma accrue_supply_side e s d t f s' : accrue e s d t f = Ok s' tt ->
+  fac_nonneg (sfac s) ->
+  dep s' = dep s /\ bor s' = bor s /\ fac_mono (sfac s) (sfac s') /\ fac_nonneg (sfac s').
 Proof.
-  intros Hi Hr. unfold dec_trunc_int, dec_mul, dec_of_int.
-  assert (chop_round (i * PREC * rf) <= i * PREC).
-  { rewrite <- (chop_round_exact (i * PREC)) at 2 by (unfold PREC; lia).
-    apply chop_round_mono_nonneg. unfold PREC in *. nia. }
-  rewrite <- (Z.quot_mul i PREC) at 2 by (unfold PREC; lia).
-  apply Z.quot_le_mono; [reflexivity|assumption].
-Qed.
-
-Lemma accrue_supply_side e s d t f s' : accrue e s d t f = Ok s' tt -> env_wf e ->
-  fac_nonneg (sfac s) -> reserves_covered e s ->
-  dep s' = dep s /\ bor s' = bor s /\ fac_mono (sfac s) (sfac s') /\ fac_nonneg (sfac s') /\ reserves_covered e s'.
-Proof.
-  unfold accrue. intros H Hwf Hn Hg.
+  unfold accrue. intros H Hn.
   destruct (prev s d) as [p|]; [|apply ret_ok in H; subst; cbn; auto using fac_mono_refl].
   destruct (t - p =? 0); [apply ret_ok in H; subst; auto using fac_mono_refl|].
   destruct (tbor s d =? 0); [apply ret_ok in H; subst; cbn; auto using fac_mono_refl|].
@@ -781,42 +776,39 @@ Proof.
   destruct (mm e d) as [m|] eqn:Em; [|discriminate].
   inv_bind H as apy E1. inv_bind H as u1 G1.
   match type of H with (if ?c then _ else _) = _ => destruct c end.
-  - apply ret_ok in H. subst s'. cbn. unfold reserves_covered. cbn. tauto.
+  - apply ret_ok in H. subst s'. cbn. tauto.
   - inv_bind H as u2 G2. inv_bind H as u3 G3. inv_bind H as u4 G4. apply ret_ok in H. subst s'. cbn.
     apply panic_unless_ok in G2, G3, G4. apply Z.leb_le in G2, G3, G4.
     set (interest := dec_trunc_int (dec_mul f (dec_of_int (tbor s d))) - tbor s d) in *.
     set (rnew := dec_trunc_int (dec_mul (dec_of_int interest) (m_reserve m))) in *.
-    pose proof (supply_factor_ge_one (interest - rnew) (bal s (hacc e) d) (tbor s d) (tres s d) G3 (Hg d)) as Hsfn.
-    split; [reflexivity|]. split; [reflexivity|]. split; [|split].
+    pose proof (supply_factor_ge_one (interest - rnew) (bal s (hacc e) d) (tbor s d) (tres s d) G3) as Hsfn.
+    split; [reflexivity|]. split; [reflexivity|]. split.
     + intros d' x E. unfold upd. destruct (Nat.eqb_spec d' d) as [->|].
       * eexists. split; [reflexivity|]. pose proof (dec_mul_ge_one sf _ Hsf Hsfn). unfold sf in *. rewrite E in *. lia.
       * exists x. split; [assumption|lia].
     + intros d' x. unfold upd. destruct (Nat.eqb_spec d' d).
       * intros E; inversion E; subst. apply dec_mul_nonneg; [assumption|unfold PREC in *; lia].
       * apply Hn.
-    + intros d'. cbn. unfold cadd. rewrite !csingle_eq. specialize (Hg d').
-      destruct (Nat.eqb_spec d' d) as [->|]; [|lia].
-      pose proof (reserve_share_le interest (m_reserve m) G2 (Hwf d m Em)). fold rnew in H. lia.
 Qed.
 
 Theorem interest_monotone_supply e s t fs s' u r c :
-  begin_block e s t fs = Ok s' tt -> env_wf e ->
-  fac_nonneg (sfac s) -> reserves_covered e s ->
+  begin_block e s t fs = Ok s' tt ->
+  fac_nonneg (sfac s) ->
   dep s u = Some r -> (forall d, 0 <= amt r d) -> idx_sound (sfac s) r ->
   synced_deposit e s u = Some (Ok c tt) ->
   exists c', synced_deposit e s' u = Some (Ok c' tt) /\ forall d, c d <= c' d.
 Proof.
-  intros H Hwf Hn Hg Hd Ha Hs Hc.
+  intros H Hn Hd Ha Hs Hc.
   assert (X : dep s' = dep s /\ fac_mono (sfac s) (sfac s')).
   { unfold begin_block in H.
     match type of H with match ?x with _ => _ end = _ => destruct x as [s1 []| |] eqn:F end; try discriminate.
     apply ret_ok in H. subst s1.
-    enough (Y : dep s' = dep s /\ bor s' = bor s /\ fac_mono (sfac s) (sfac s') /\ fac_nonneg (sfac s') /\ reserves_covered e s') by tauto.
-    refine (fold_bind_inv (fun x => dep x = dep s /\ bor x = bor s /\ fac_mono (sfac s) (sfac x) /\ fac_nonneg (sfac x) /\ reserves_covered e x)
+    enough (Y : dep s' = dep s /\ bor s' = bor s /\ fac_mono (sfac s) (sfac s') /\ fac_nonneg (sfac s')) by tauto.
+    refine (fold_bind_inv (fun x => dep x = dep s /\ bor x = bor s /\ fac_mono (sfac s) (sfac x) /\ fac_nonneg (sfac x))
               _ (fun s0 d => accrue e s0 d t (nthZ fs d)) _ _ _ _ _ F _).
     - intros acc b. reflexivity.
-    - intros a b a2 (P1 & P2 & P3 & P4 & P5) G.
-      destruct (accrue_supply_side _ _ _ _ _ _ G Hwf P4 P5) as (Q1 & Q2 & Q3 & Q4 & Q5).
+    - intros a b a2 (P1 & P2 & P3 & P4) G.
+      destruct (accrue_supply_side _ _ _ _ _ _ G P4) as (Q1 & Q2 & Q3 & Q4).
       split; [congruence|]. split; [congruence|]. split; [eapply fac_mono_trans; eauto|tauto].
     - repeat split; auto using fac_mono_refl. }
   destruct X as [D M].
